@@ -126,7 +126,10 @@ pub fn generate(run: &mut Run, rng: &mut Rng, scale: u64, emit: &mut dyn FnMut(&
         for _ in 0..n {
             if rng.chance(3, 4) {
                 seq = if rng.chance(4, 5) { seq.wrapping_add(1) } else { seq.wrapping_sub(rng.below(4) as u16) };
-                ops.push(format!("s:{seq}:{tag}")); tag += 1;
+                if rng.chance(1, 5) { ops.push(format!("x:{}:{seq}:{tag}", pk!(rng, [9u32, 9, 9, 7, 0]))); }
+                else { ops.push(format!("s:{seq}:{tag}")); }
+                tag += 1;
+                if rng.chance(1, 8) { ops.push(format!("r:{}", pk!(rng, [9u32, 9, 9, 0, 7]))); }
             } else {
                 t += pk!(rng, [0u64, 1, 24, 25, 26, 100]);
                 let k = rng.range(1, 6);
